@@ -7,23 +7,30 @@ import warnings
 from fractions import Fraction
 
 from harness.common import Run, coq_Q, coq_bool, coq_list, frac
+from harness.translate import c20_bench
 
 META = dict(
-    technique="Coq theorems (list induction, stable-sort invariants, exact field algebra over Q) on a hand-written model of "
-              "_get_feature_values / ConstantModel / LMEPersonalizeAlgorithm / LMEModel; the model's executable definitions are run "
-              "inside Coq (vm_compute, exact rationals) on the very inputs given to the implementation and compared with its outputs; "
-              "statsmodels agreement and straight-line shape are runtime oracles",
+    technique="Coq theorems (list induction, stable-sort invariants, exact field algebra over Q) on a model of _get_feature_values / ConstantModel / "
+              "LMEPersonalizeAlgorithm / LMEModel / the storing step of LMEFitAlgorithm; T1: those five functions are regenerated from the python "
+              "source by a fail-closed shape-typed symbolic executor (coq/gen/GenC20.v, compositions of numpy-primitive meanings) and proved EQUAL "
+              "to the model; T2: the model's executable definitions are run inside Coq (vm_compute, exact rationals) on the very inputs given to "
+              "the implementation and compared with its outputs; statsmodels agreement, covariance-form conditional means and straight-line "
+              "shape are runtime oracles",
     level_text="Unbounded theorems: 'last' / 'last-known' / 'max' / 'mean' meet order-free specifications (row of the greatest age; "
                "value at the greatest age where present; greatest / arithmetic mean of present values; NaN iff missing at every "
                "visit) for every table, and are invariant under row permutation (distinct ages for the two age-based ones); the "
                "prediction is that value at every requested age; the personalised random effects are the unique solution of "
-               "(Z'Z + Psi^-1) b = Z'r whenever that matrix is regular; the random-intercept shortcut is the one-column instance and the "
-               "Gaussian conditional mean; the trajectory is the line intercept + slope*age. Refuted and replayed: ages that "
-               "collide once stored in float32 make 'last'/'last-known' return the earlier visit.",
-    level_note="Trusted: Coq kernel (all theorems closed under the global context); hand-written model tied by executing it on the "
-               "implementation's inputs (no translator); numpy/torch/pandas kernels; float rounding outside the theorems (exact "
-               "comparison on dyadic inputs for last/last-known/max, stated tolerances otherwise). statsmodels' fit (the variance "
-               "components) is not modelled: agreement with fitted.random_effects is a runtime oracle.",
+               "(Z'Z + Psi^-1) b = Z'r whenever that matrix is regular; the random-intercept closed form is the code's generic formula at "
+               "Z = 1 and the Gaussian conditional mean; an accepted fit stores a two-sided inverse of cov_re / noise^2 and a singular "
+               "covariance is refused; precision form = covariance form D Z'(Z D Z' + I)^-1 r for invertible D, 0 for D = 0; the trajectory is "
+               "the line intercept + slope*age. All of it holds of the definitions regenerated from the source (C20_src_*). Refuted and "
+               "replayed: ages that collide once stored in float32 make 'last'/'last-known' return the earlier visit.",
+    level_note="Trusted: Coq kernel (all theorems closed under the global context); the translator harness/translate/c20_bench.py and the "
+               "exact-arithmetic meanings of the numpy / python / statsmodels primitives it targets (Api/BenchNumpy.v; exercised on every run by "
+               "executing the model on the implementation's inputs); numpy/torch/pandas kernels; float rounding outside the theorems (exact "
+               "comparison on dyadic inputs for last/last-known/max, stated tolerances otherwise). statsmodels' optimiser (the variance "
+               "components) is an input of the model: agreement with fitted.random_effects is a runtime oracle; ages_std and noise_std enter the "
+               "fit model through their squares.",
     design_ref="DESIGN.md section 4 C20",
 )
 
@@ -32,7 +39,17 @@ OBLIGATIONS = [
     "C20_last_rounded_ok", "C20_last_rounded_refuted",
     "C20_blup_normal_eq", "C20_blup_sound", "C20_penalised_ls_optimal", "C20_intercept_special_case", "C20_intercept_conditional_mean",
     "C20_personalize", "C20_personalize_defined", "C20_line",
+    # source-level tie (extension): the regenerated definitions of coq/gen/GenC20.v
+    "C20_src_feature_values", "C20_src_feature_values_any", "C20_src_estimators", "C20_src_constant_trajectory",
+    "C20_src_lme_personalize", "C20_src_generic", "C20_src_paths_agree", "C20_src_lme_trajectory", "C20_src_fit_store",
+    "C20_src_fit_inverse", "C20_src_fit_inverse_1", "C20_src_fit_refuses_singular", "C20_cov_form", "C20_cov_form_zero",
+    "C20_src_fit_then_personalize",
 ]
+
+def translate(run: Run) -> bool:
+    """T1: regenerate coq/gen/GenC20.v from the source of the five benchmark functions (fail closed)"""
+    return c20_bench.translate(run)
+
 
 HDR = ("From Coq Require Import QArith List Bool.\nFrom Leaspy Require Import Base.QAux Api.Bench Api.BenchTie.\n"
        "Import ListNotations.\nOpen Scope Q_scope.\n")
@@ -652,10 +669,14 @@ def lme_fitted(run: Run, n_cohorts: int, cases_p, meta_p, cases_t, meta_t, cases
                         ip = model.personalize(data, "lme_personalize")
                 except Exception as e:  # statsmodels' optimiser is outside the property (singular covariance, no convergence)
                     run.count("lme.fit.outcome", f"{type(e).__name__}")
+                    if type(e).__name__ == "LeaspyDataInputError" and captured.get("fitted") is not None:
+                        fit_store_case(run, captured["fitted"], slope, None, m0)
                     continue
                 run.count("lme.fit.outcome", "ok")
                 fitted = captured.get("fitted")
                 P = model.parameters
+                if fitted is not None:
+                    fit_store_case(run, fitted, slope, np.atleast_2d(np.array(P["cov_re_unscaled_inv"], dtype=float)), m0)
                 cov_inv = np.array(P["cov_re_unscaled_inv"], dtype=float)
                 # (0) the conditional means GIVEN THE FITTED VARIANCE COMPONENTS, in covariance form (valid for a singular covariance too):
                 #     b_i = D Z_i' (Z_i D Z_i' + I)^-1 r_i  with  D = cov_re / noise variance  — equal to (Z'Z + D^-1)^-1 Z' r when D is invertible
@@ -765,6 +786,70 @@ def lme_fitted(run: Run, n_cohorts: int, cases_p, meta_p, cases_t, meta_t, cases
     finally:
         mlm.MixedLM.fit = orig_fit
         LMEPersonalizeAlgorithm._generic_get_random_effects = staticmethod(orig_gen)
+
+
+FIT_CASES = {1: ([], []), 2: ([], [])}      # k -> (Coq cases, meta) of the storing step of LMEFitAlgorithm._run
+
+
+def fit_store_case(run: Run, fitted, slope, stored_inv, m0):
+    """what statsmodels returned (fe_params, cov_re, scale, its own cov_re_unscaled) and what the code stored (the inverse, or None when it
+    refused with LeaspyDataInputError) -> one case for check_fit_store_{1,2} (the model of the storing step, tied to the source by T1)"""
+    import numpy as np
+    try:
+        cov = np.atleast_2d(np.asarray(fitted.cov_re, dtype=float))
+        uns = np.atleast_2d(np.asarray(fitted.cov_re_unscaled, dtype=float))
+        fe = [float(x) for x in np.asarray(fitted.fe_params, dtype=float).reshape(-1)]
+        scale = float(fitted.scale)
+    except Exception as e:  # noqa
+        run.count("lme.fit.store", f"statsmodels-result-unreadable:{type(e).__name__}")
+        return
+    k = 2 if slope else 1
+    if cov.shape != (k, k) or uns.shape != (k, k) or len(fe) != 2 or not finite(scale, *fe, *cov.reshape(-1), *uns.reshape(-1)) or scale == 0.0:
+        run.count("lme.fit.store", "degenerate-statsmodels-result(skipped)")
+        return
+    fu = [[frac(cov[i][j]) / frac(scale) for j in range(k)] for i in range(k)]
+    det = fu[0][0] if k == 1 else fu[0][0] * fu[1][1] - fu[0][1] * fu[1][0]
+    if stored_inv is None:
+        if det != 0:       # numpy's LU found a zero pivot in floating point although the exact determinant is not 0: not comparable
+            run.count("lme.fit.store", "refused-in-floating-point-only(skipped)")
+            return
+        obs = "None"
+    else:
+        if not finite(*stored_inv.reshape(-1)):
+            obs = None
+        elif det != 0 and float(np.linalg.cond(uns)) > 1e6:
+            run.count("lme.fit.store", "ill-conditioned(skipped)")
+            return
+        else:
+            obs = f"(Some {cmat(stored_inv.tolist())})" if k == 2 else f"(Some {q(stored_inv[0][0])})"
+    m = dict(m0, case="lme-fit", statsmodels=dict(fe_params=fe, cov_re=cov.tolist(), scale=scale, cov_re_unscaled=uns.tolist()),
+             stored_cov_re_unscaled_inv=None if stored_inv is None else stored_inv.tolist())
+    run.count("lme.fit.store", ("refused" if stored_inv is None else "accepted") + ("-exactly-singular" if det == 0 else "-regular"))
+    run.case(("lme-fit-store", k, tuple(cov.reshape(-1)), scale), nontrivial=True)
+    if obs is None:
+        run.fail("lme:fit:cov-re-unscaled-inv", "the fit stores a non-finite cov_re_unscaled_inv", m, observed=m["stored_cov_re_unscaled_inv"])
+        return
+    mat = (lambda a: cmat(a.tolist())) if k == 2 else (lambda a: q(a[0][0]))
+    cases, meta = FIT_CASES[k]
+    cases.append(f"(SmResult ({q(fe[0])}, {q(fe[1])}) {mat(cov)} {q(scale)}, {mat(uns)}, {obs}, {q(Fraction(1, 10 ** 6))})")
+    meta.append(m)
+
+
+def fit_store_check(run: Run):
+    hdr = HDR.replace("Api.BenchTie.", "Api.BenchTie Api.BenchFit.")
+    for k, ty in ((2, "sm_result mat2 * mat2 * option mat2 * Q"), (1, "sm_result Q * Q * option Q * Q")):
+        cases, meta = FIT_CASES[k]
+        bad = run.vm_bad_indices(f"lme_fit_store_{k}", hdr, ty, cases, f"check_fit_store_{k}") if cases else []
+        for i in bad or []:
+            m = meta[i]
+            refused = m["stored_cov_re_unscaled_inv"] is None
+            run.fail("lme:fit:singular-covariance-accepted" if not refused else "lme:fit:cov-re-unscaled-inv",
+                     "what LMEFitAlgorithm._run stored differs from the model of the storing step (Bench.lme_fit_store: inv(cov_re / scale), a singular "
+                     "covariance refused with LeaspyDataInputError)" + ("" if refused else
+                     " - here the fit was ACCEPTED; if cov_re is singular the stored matrix is not an inverse and personalisation does not return the conditional means"),
+                     m, expected="LeaspyDataInputError (singular) or the inverse of cov_re / scale", observed=m["stored_cov_re_unscaled_inv"])
+        run.extra[f"lme_fit_store_cases_{k}"] = len(cases)
+        del cases[:], meta[:]
 
 
 def benchmark_object_reuse(run: Run, thorough: bool):
@@ -902,6 +987,7 @@ def lme_all(run: Run, thorough: bool):
     for i in bad or []:
         m, out = meta_b[i]
         run.fail("lme:blup", "recorded call of _generic_get_random_effects differs from the Coq model (Bench.blup2)", m, observed=out)
+    fit_store_check(run)
     run.extra["lme_personalize_cases"] = len(cases_p)
     run.extra["lme_trajectory_cases"] = len(cases_t)
     run.extra["lme_recorded_blup_calls"] = len(cases_b)
@@ -940,21 +1026,26 @@ def _check(run: Run, thorough: bool):
 
 
 def main(run: Run):
+    translate(run)
     ok_p = run.prove("C20", OBLIGATIONS)
     run.assumptions += [
         "ages are finite and (for 'last'/'last-known' to be determined) pairwise distinct once stored: ingestion rejects NaN ages and "
         "duplicated (ID, TIME) rows (C14); distinct ages that collide in float32 are the recorded finding",
         "float rounding is outside the theorems: values are compared exactly on dyadic inputs (last, last-known, max) and within "
         "1e-6 (mean, float32), 1e-9 (LME, float64, float32-exact normalisation), 1e-5 (LME, normalisation rounded in float32), 1e-6 (trajectories, float32)",
-        "the variance components (cov_re_unscaled_inv), fixed effects and normalisation are taken from the fitted model: statsmodels' "
-        "optimiser is not modelled",
+        "the variance components, fixed effects and noise variance are what statsmodels' optimiser returned (an input of the model of the "
+        "storing step; the optimiser is not modelled); cov_re_unscaled = cov_re / scale is statsmodels' definition (checked on every recorded fit)",
+        "numpy arrays are rectangular (wf) for the source-level tie of 'last-known'; the ages requested from the LME trajectory are not an empty list",
     ]
     run.trusted += [
-        "hand-written model coq/theories/Api/Bench.v (tied by executing it inside Coq on the implementation's inputs; no translator)",
+        "model coq/theories/Api/Bench.v, Api/BenchFit.v: tied to the source by the translator (proved equal to the regenerated coq/gen/GenC20.v) and by "
+        "executing it inside Coq on the implementation's inputs",
         "harness float -> exact rational conversion (float.as_integer_ratio) and Coq literal printing",
         "numpy / torch / pandas / statsmodels kernels",
     ]
-    run.explanation = ("Theorems (Coq, for every table of visits / every design matrix and residual vector over Q) about executable definitions that "
+    run.explanation = ("The five benchmark functions are regenerated from the python source (fail-closed symbolic execution into compositions of numpy "
+                       "primitive meanings) and proved equal to the model. "
+                       "Theorems (Coq, for every table of visits / every design matrix and residual vector over Q) about executable definitions that "
                        "mirror the code line by line (stable sort by age, argmax of the not-NaN mask, nanmax, nanmean, 2x2 inverse); the same "
                        "definitions are evaluated by vm_compute on the inputs given to the implementation (exact rationals of the floats) and "
                        "compared with its outputs; order-free python recomputation, statsmodels' random effects and the straight-line shape "
